@@ -151,7 +151,15 @@ FALLIBLE_CONV = __import__('re').compile(
 
 def fallible_conv(c):
     n = c.rdef or c.callee or ''
-    return bool(FALLIBLE_CONV.search(n)) or bool(FALLIBLE_CONV.search(c.callee or ''))
+    if not (FALLIBLE_CONV.search(n) or FALLIBLE_CONV.search(c.callee or '')):
+        return False
+    if n.endswith(('::try_from', '::try_into')):
+        # a *shape* conversion that hands its argument back on failure (`<[T; 1]>::try_from(vec)` -> Err(vec)) loses
+        # nothing: the Err payload is the collection itself, not a conversion error
+        m = __import__('re').match(r'^std::result::Result<(.*), (std::vec::Vec<.*|std::boxed::Box<\[.*|std::string::String|&.*)>$', c.term['dest'].get('ty', ''))
+        if m:
+            return False
+    return True
 
 
 @prop('C04',
@@ -265,6 +273,7 @@ def c13(ctx):
     obs += r_lock.rule_notry(lm, classes=('REGISTRY', 'CONTEXT'))
     obs += r_lock.rule_floors(lm)
     obs += r_registry.rule_reg_snapshot(rm)
+    obs += r_registry.rule_reg_record(rm)
     return obs, {'analysed': {'guard_live_call_sites': n, 'statics': len(ctx.facts.statics)}}
 
 
@@ -389,7 +398,8 @@ def c05(ctx):
     obs += r_parse.rule_strterm(roles)
     obs += r_token.rule_charunits(roles)
     bodies = [ctx.prog.by_id[i] for i in sorted(roles.reach)]
-    obs += r_errd.rule_errd(bodies, extra_callee_pred=fallible_conv)
+    rm = reg_model(ctx)
+    obs += r_errd.rule_errd(bodies, extra_callee_pred=fallible_conv, lookup_miss=lambda c: c.ruid in rm.reg_lockers)
     return obs, {'analysed': {'parse_reach': len(bodies), 'parse_bodies': len(roles.parse_bodies)}}
 
 
@@ -582,6 +592,7 @@ def c11(ctx):
       'TPREC: the rows the built-in filler registers (read off its MIR by a value-set analysis: constants, tuples, vec! literals, forward iteration, tuple correlation kept) equal the documented BinaryExpression table of README.md (`in` at the beginWith level); SETTER => RIGHT, CALC => LEFT; no operator registered twice with different rows. '
       'WUNARY: every call path from the prefix builder to the infix loop crosses a body that consumes an opening delimiter (prefix binds tighter than every infix operator); a postfix operator applies to the primary just parsed. WPOSTFIX: the prefix operand is parsed by the postfix-attaching body (postfix binds tighter than prefix), and attaching depends only on registry membership of the current token. '
       'WTERN: the branch building the conditional is control-dependent on the minimum-precedence parameter (`?` is left to the outermost level). '
+      'WTERN-R: the else branch of the conditional is parsed by a body from which the conditional builder is reachable without crossing an opening delimiter (chains nest to the right). '
       'WGATE: the recursion gate and the callee\'s continuation test are the same predicate on (next.left, right), or differ only at equality while left = 2p and right = 2p +- 1 make equality impossible (adjacent precedences cannot collide).',
       not_decided='that the Pratt loop builds the right tree for every operator sequence (values of binding powers along unboundedly many iterations); the `x not OP y` rewrite (WNOT needs facts about the peeked token that no rule here establishes: not decided)',
       assumptions=COMMON_ASSUME)
@@ -594,6 +605,7 @@ def c02(ctx):
     obs += tobs
     obs += r_parse.fallback(r_prec.rule_wunary, roles, merged=True)
     obs += r_parse.fallback(r_prec.rule_wtern, roles)
+    obs += r_parse.fallback(r_prec.rule_wtern_right, roles)
     obs += r_parse.fallback(r_prec.rule_wgate, roles)
     obs += r_prec.rule_wassoc(ctx.prog)
     obs += [o for o in r_parse.fallback(r_prec.rule_wpostfix, roles) if '|gate|' not in o.key]
